@@ -2,6 +2,7 @@ import Driver.Common
 import Driver.C18
 import Driver.Life
 import Driver.C09
+import Driver.Boxing
 import Driver.C08
 import Driver.Registry
 import Driver.Pg
@@ -29,6 +30,7 @@ def main (args : List String) : IO UInt32 := do
       | "life-residue" => Driver.LifeDrv.run .residue ops impl
       | "c09" => Driver.C09.run ops impl
       | "c02-rpc" => Driver.C09.runC02 ops impl
+      | "c02-box" => Driver.BoxingD.run ops impl
       | "c08" => Driver.C08.run ops impl
       | "registry" => Driver.Registry.run ops impl
       | "pg" => Driver.Pg.run ops impl
